@@ -216,42 +216,60 @@ Proof.
 Qed.
 
 (* ---------------------------------------------------------------------------------------------
-   E.  Stale tensors.  After ANY sequence of operations (assignments of e/g/h/h_inv, reads of h and
-   h_inv, copies, clear_tensors, ...) that ends in a coordinate change (c[k] = v, c = c + d,
-   c = c - d, c += d, c -= d) the stored energy, gradient, Hessian and inverse Hessian are None and
-   the public getter c.h (which rebuilds the Hessian from _h_inv, base.py:126-130) returns None;
-   at every moment every stored tensor, and what c.h returns, was stored at the current coordinates.
-   (Before /repo commit f02d526 clear_tensors left _h_inv alone and c.h returned a stale Hessian.)
+   E.  Stale tensors.  The machine is compositional: __setitem__ = clear_tensors ; write,
+   __add__ = copy ; clear_tensors ; iadd,  __iadd__ = clear_tensors ; __add__, where the primitive
+   iadd is kind specific (Cartesian: ndarray.__iadd__, which clears nothing; DIC: ... self[:] = s_k,
+   on the converged and on the first-order-fallback branch alike).  For BOTH kinds, after ANY
+   operation sequence ending in c[k] = v, c = c + d, c = c - d, c += d or c -= d the stored energy,
+   gradient, Hessian and inverse Hessian are None and the getter c.h returns None: the clearing is
+   done by the explicit clear_tensors call of the dunder, not by the primitive step.
+   The alphabet is the public OptCoordinates interface; numpy operations that bypass it (ufunc
+   results, *=, fill, writes through views) are NOT in the model: they are exercised - and keep
+   stale tensors - on the implementation only (harness keys OptCoordinates|stale-tensors:...).
    --------------------------------------------------------------------------------------------- *)
 Theorem tensors_cleared_on_change :
-  forall (s : cstate) (ops : list cop) (o : cop),
+  forall (k : ckind) (s : cstate) (ops : list cop) (o : cop),
     is_change o = true ->
-    let s' := crun s (ops ++ [o]) in
+    let s' := crun k s (ops ++ [o]) in
     t_e s' = None /\ t_g s' = None /\ t_h s' = None /\ t_hinv s' = None /\ obs_h s' = None /\
-    ver s' = S (ver (crun s ops)).
+    ver s' = S (ver (crun k s ops)).
 Proof.
-  intros s ops o H s'. subst s'. rewrite crun_app.
-  set (s1 := crun s ops). change (crun s1 [o]) with (cstep s1 o).
-  destruct (change_clears s1 o H) as [A [B [C [D E]]]].
+  intros k s ops o H s'. subst s'. rewrite crun_app.
+  set (s1 := crun k s ops). change (crun k s1 [o]) with (cstep k s1 o).
+  destruct (change_clears k s1 o H) as [A [B [C [D E]]]].
   split; [exact A|]. split; [exact B|]. split; [exact C|]. split; [exact D|]. split; [|exact E].
   unfold obs_h. rewrite C. exact D.
 Qed.
 
-Theorem no_stale_tensor_ever :
-  forall ops : list cop,
-    let s := crun cinit ops in
+(* No stored tensor (nor what c.h returns) is ever older than the coordinates - for a DIC under every
+   operation of the alphabet, for Cartesian coordinates as long as iadd() is not called directly. *)
+Theorem no_stale_tensor_partial :
+  forall (k : ckind) (ops : list cop),
+    Forall (fun o => keeps_fresh k o = true) ops ->
+    let s := crun k cinit ops in
     fresh_tag s (t_e s) /\ fresh_tag s (t_g s) /\ fresh_tag s (t_h s) /\ fresh_tag s (t_hinv s) /\
     fresh_tag s (obs_h s).
 Proof.
-  intros ops s. destruct (crun_fresh ops cinit) as [A [B [C D]]].
+  intros k ops Hf s. destruct (crun_fresh k ops cinit Hf) as [A [B [C D]]].
   { unfold all_fresh, cinit. cbn. auto. }
   fold s in A, B, C, D. split; [exact A|]. split; [exact B|]. split; [exact C|]. split; [exact D|].
   unfold obs_h. destruct (t_h s) eqn:E; [rewrite <- E in *; rewrite E in C; rewrite E; exact C|exact D].
 Qed.
 
+(* ... and the restriction is necessary: CartesianCoordinates.iadd (cartesian.py:79-80) moves the
+   coordinates and keeps e, g, h: "stale tensors are discarded when coordinates change" is FALSE of
+   the faithful model for a direct iadd() call (harness key CartesianCoordinates.iadd|keeps-tensors). *)
+Theorem cartesian_iadd_keeps_tensors_refuted :
+  exists ops : list cop,
+    let s := crun KCart cinit ops in
+    exists t, t_g s = Some t /\ t_e s = Some t /\ obs_h s = Some t /\ t <> ver s.
+Proof.
+  exists [OSetE true; OSetG true; OSetH true; OIaddCall]. cbn. exists 0. repeat split; discriminate.
+Qed.
+
 Example machine_nonvacuous :
-  let s := crun cinit [OSetH true; OGetHinv; OAdd; OSetG true] in
-  ver s = 1 /\ t_g s = Some 1 /\ t_h s = None /\ t_hinv s = None /\ obs_h s = None.
+  let s := crun KDic cinit [OSetH true; OGetHinv; OIaddCall; OSetG true; OAdd; OSetE true] in
+  ver s = 2 /\ t_e s = Some 2 /\ t_g s = None /\ t_h s = None /\ t_hinv s = None /\ obs_h s = None.
 Proof. cbn. repeat split. Qed.
 
 (* ---------------------------------------------------------------------------------------------
